@@ -12,6 +12,7 @@ use radix_common::prelude::*;
 use radix_engine::errors::*;
 use radix_engine::transaction::*;
 use radix_engine_interface::prelude::*;
+use radix_transactions::manifest::static_resource_movements::*;
 use radix_transactions::manifest::*;
 use radix_transactions::prelude::*;
 use serde::{Deserialize, Serialize};
@@ -629,12 +630,22 @@ struct World9 {
 
 /// Translates a symbolic program into a raw V1 manifest (explicit bucket / proof ids).
 fn to_manifest(instrs: &[PI], w: &World9, view: &View, actor: usize) -> Option<TransactionManifestV1> {
+    to_manifest_with_fee(instrs, w, view, actor, false)
+}
+
+/// `own_fee`: lock the fee on the actor's account instead of the faucet component (a call into a
+/// non-native component makes the static analyser assume unknown resources on the worktop).
+fn to_manifest_with_fee(instrs: &[PI], w: &World9, view: &View, actor: usize, own_fee: bool) -> Option<TransactionManifestV1> {
     let acct = view.parties[actor].account;
     let mut v: Vec<InstructionV1> = vec![];
     let call = |addr: ComponentAddress, method: &str, args: ManifestValue| -> InstructionV1 {
         InstructionV1::CallMethod(CallMethod { address: addr.into(), method_name: method.to_string(), args })
     };
-    v.push(call(FAUCET, "lock_fee", manifest_args!(dec!(5000)).into()));
+    if own_fee {
+        v.push(call(acct, "lock_fee", manifest_args!(dec!(100)).into()));
+    } else {
+        v.push(call(FAUCET, "lock_fee", manifest_args!(dec!(5000)).into()));
+    }
     let ids_of = |ids: &Vec<u64>| -> Vec<NonFungibleLocalId> { ids.iter().map(|i| NonFungibleLocalId::integer(*i)).collect() };
     for pi in instrs {
         let d = |s: &String| Decimal::try_from(s.as_str()).ok();
@@ -819,6 +830,7 @@ impl World for Programs {
         let specific = match self.id {
             "C09" => "C09: success <=> every take satisfiable, every assertion true, nothing left on the worktop, no non-empty bucket left, nothing used after being consumed (asserted when no instruction of unknown semantics precedes the deciding one); on success every account's vault change equals the interpreter's (a take never yields more than was put).",
             "C10" => "C10: a withdraw / burn of y from an account vault succeeds iff y <= balance - max(live locks) and y respects divisibility, overlapping proofs lock the max not the sum, proofs of more than the balance fail; after the transaction (success or failure) a follow-up transaction withdrawing the full balance must succeed (all locks released) and the stored balance equals the model's.",
+            "C38" => "C38: every generated manifest that static validation accepts is also run through StaticResourceMovementsVisitor; when the analysis succeeds and the execution succeeds, what each account actually withdrew and deposited per resource (summed from the accounts' own WithdrawEvent / DepositEvent in the receipt; non-fungibles by count) is compared with the analysis: withdrawals must equal the reported (exact) withdrawals, deposits must lie within the summed per-deposit bounds (exact / at most / at least / between / unknown; a resource not mentioned by any deposit of an account without unspecified resources must not be deposited there).",
             _ => "C36: every generated manifest goes through StaticManifestInterpreter with all rules: a manifest whose symbolic lifecycle uses an unknown or consumed bucket / proof, consumes a bucket locked by a proof, or leaves buckets dangling must be rejected; an accepted manifest must never fail at run time with BucketNotFound / ProofNotFound.",
         };
         format!("{}{} evaluations = engine executions + static validations; distinct = distinct (program digest, outcome).", common, specific)
@@ -834,6 +846,9 @@ impl World for Programs {
                "stub_or_ours": ["program generator", "symbolic worktop/bucket/proof interpreter"]})
     }
     fn probes(&self) -> Vec<&'static str> {
+        if self.id == "C38" {
+            return vec!["analysis.accepted", "analysis.compared_with_execution", "analysis.withdraw_checked", "analysis.bounded_deposit_checked", "analysis.unbounded_deposit", "static.accepted", "fault.inject_costing_error_fired"];
+        }
         vec![
             "program.success_predicted_and_observed",
             "program.failure_predicted_and_observed",
@@ -1000,7 +1015,9 @@ impl World for Programs {
                     if w.fres.is_empty() {
                         continue;
                     }
-                    let Some(manifest) = to_manifest(&instrs, &w, &view, 0) else {
+                    // C38: half of the programs pay from the own account so that the analyser's bounds are tight
+                    let own_fee = self.id == "C38" && instrs.len() % 2 == 0;
+                    let Some(manifest) = to_manifest_with_fee(&instrs, &w, &view, 0, own_fee) else {
                         stats.bump("program.untranslatable");
                         continue;
                     };
@@ -1076,6 +1093,24 @@ impl World for Programs {
                         ));
                         break;
                     }
+                    // C38: the static resource movement analysis of the same manifest
+                    let analysis = if self.id == "C38" && accepted {
+                        match catch_quiet(|| {
+                            let mut visitor = StaticResourceMovementsVisitor::new(false);
+                            StaticManifestInterpreter::new(ValidationRuleset::all(), &manifest).validate_and_apply_visitor(&mut visitor).ok().map(|_| visitor.output())
+                        }) {
+                            Ok(a) => a,
+                            Err(p) => {
+                                violation = Some(mk("c38.analyser_panicked", format!("{:?}: {}", instrs, p)));
+                                break;
+                            }
+                        }
+                    } else {
+                        None
+                    };
+                    if self.id == "C38" {
+                        stats.bump(if analysis.is_some() { "analysis.accepted" } else { "analysis.rejected_or_not_run" });
+                    }
                     // execute
                     let nonce = node.next_nonce();
                     let Ok(exe) = TxSpec::new(manifest, nonce, btreeset![proof0.clone()]).build(&node.validator) else {
@@ -1111,7 +1146,7 @@ impl World for Programs {
                         break;
                     }
                     let _ = RuntimeError::SystemError;
-                    if self.id != "C36" && !injected && fault_at.is_none() {
+                    if matches!(self.id, "C09" | "C10") && !injected && fault_at.is_none() {
                         match verdict {
                             Pred::Ok => {
                                 if !success {
@@ -1137,8 +1172,114 @@ impl World for Programs {
                         }
                     }
                     node.commit(&rc);
+                    // C38: what the accounts actually deposited / withdrew (their own events) lies within the analyser's bounds
+                    if let (true, Some(out), TransactionResult::Commit(c)) = (success && self.id == "C38", &analysis, &rc.result) {
+                        use radix_engine::blueprints::account::{DepositEvent, WithdrawEvent};
+                        let mut dep: BTreeMap<(ComponentAddress, ResourceAddress), Decimal> = BTreeMap::new();
+                        let mut wd: BTreeMap<(ComponentAddress, ResourceAddress), Decimal> = BTreeMap::new();
+                        for (EventTypeIdentifier(emitter, name), payload) in &c.application_events {
+                            let Emitter::Method(n, ModuleId::Main) = emitter else { continue };
+                            let Ok(acct) = ComponentAddress::try_from(n.0.as_slice()) else { continue };
+                            if !view.parties.iter().any(|p| p.account == acct) {
+                                continue;
+                            }
+                            match name.as_str() {
+                                "DepositEvent" => match scrypto_decode::<DepositEvent>(payload) {
+                                    Ok(DepositEvent::Fungible(r, a)) => *dep.entry((acct, r)).or_default() += a,
+                                    Ok(DepositEvent::NonFungible(r, ids)) => *dep.entry((acct, r)).or_default() += Decimal::from(ids.len()),
+                                    _ => {}
+                                },
+                                "WithdrawEvent" => match scrypto_decode::<WithdrawEvent>(payload) {
+                                    Ok(WithdrawEvent::Fungible(r, a)) => *wd.entry((acct, r)).or_default() += a,
+                                    Ok(WithdrawEvent::NonFungible(r, ids)) => *wd.entry((acct, r)).or_default() += Decimal::from(ids.len()),
+                                    _ => {}
+                                },
+                                _ => {}
+                            }
+                        }
+                        // predicted withdrawals (exact) and deposits (bounds) per account and resource
+                        let mut pwd: BTreeMap<(ComponentAddress, ResourceAddress), Decimal> = BTreeMap::new();
+                        for (acct, ws) in out.resolve_account_withdraws() {
+                            for w in ws {
+                                match w {
+                                    AccountWithdraw::Amount(r, a) => *pwd.entry((acct, r)).or_default() += a,
+                                    AccountWithdraw::Ids(r, ids) => *pwd.entry((acct, r)).or_default() += Decimal::from(ids.len()),
+                                }
+                            }
+                        }
+                        // (lower, upper or None = unbounded)
+                        let mut pdep: BTreeMap<(ComponentAddress, ResourceAddress), (Decimal, Option<Decimal>)> = BTreeMap::new();
+                        let mut unspecified: BTreeSet<ComponentAddress> = BTreeSet::new();
+                        let all_res: Vec<ResourceAddress> = w.fres.iter().copied().chain(w.nres).collect();
+                        for (acct, ds) in out.resolve_account_deposits() {
+                            for d in ds {
+                                if d.unspecified_resources().may_be_present() {
+                                    unspecified.insert(acct);
+                                }
+                                for r in &all_res {
+                                    let (lo, hi) = match d.specified_resources().get(r) {
+                                        None => (Decimal::ZERO, if d.unspecified_resources().may_be_present() { None } else { Some(Decimal::ZERO) }),
+                                        Some(SimpleResourceBounds::Fungible(b)) => match b {
+                                            SimpleFungibleResourceBounds::Exact(x) => (*x, Some(*x)),
+                                            SimpleFungibleResourceBounds::AtMost(x) => (Decimal::ZERO, Some(*x)),
+                                            SimpleFungibleResourceBounds::AtLeast(x) => (*x, None),
+                                            SimpleFungibleResourceBounds::Between(a, b) => (*a, Some(*b)),
+                                            SimpleFungibleResourceBounds::UnknownAmount => (Decimal::ZERO, None),
+                                        },
+                                        Some(SimpleResourceBounds::NonFungible(b)) => match b {
+                                            SimpleNonFungibleResourceBounds::Exact { amount, .. } => (*amount, Some(*amount)),
+                                            SimpleNonFungibleResourceBounds::NotExact { certain_ids, lower_bound, upper_bound, .. } => (
+                                                match lower_bound {
+                                                    LowerBound::Inclusive(x) => (*x).max(Decimal::from(certain_ids.len())),
+                                                    _ => Decimal::from(certain_ids.len()),
+                                                },
+                                                match upper_bound {
+                                                    UpperBound::Inclusive(x) => Some(*x),
+                                                    _ => None,
+                                                },
+                                            ),
+                                        },
+                                    };
+                                    let e = pdep.entry((acct, *r)).or_insert((Decimal::ZERO, Some(Decimal::ZERO)));
+                                    e.0 += lo;
+                                    e.1 = match (e.1, hi) {
+                                        (Some(a), Some(b)) => Some(a + b),
+                                        _ => None,
+                                    };
+                                }
+                            }
+                        }
+                        let mut bad = None;
+                        for p in view.parties.iter().take(N_PARTIES) {
+                            for r in &all_res {
+                                let k = (p.account, *r);
+                                let (aw, ad) = (wd.get(&k).copied().unwrap_or(Decimal::ZERO), dep.get(&k).copied().unwrap_or(Decimal::ZERO));
+                                let pw = pwd.get(&k).copied().unwrap_or(Decimal::ZERO);
+                                if aw != pw {
+                                    bad = Some(format!("account {:?} resource {:?}: withdrew {} but the analyser reports withdrawals of {}", p.account, r, aw, pw));
+                                }
+                                let (lo, hi) = pdep.get(&k).copied().unwrap_or((Decimal::ZERO, Some(Decimal::ZERO)));
+                                if ad < lo || hi.map(|h| ad > h).unwrap_or(false) {
+                                    bad = Some(format!("account {:?} resource {:?}: deposited {} but the analyser bounds the deposits by [{}, {:?}]", p.account, r, ad, lo, hi));
+                                }
+                                if hi.is_none() {
+                                    stats.bump("analysis.unbounded_deposit");
+                                } else if ad.is_positive() {
+                                    stats.bump("analysis.bounded_deposit_checked");
+                                }
+                                if aw.is_positive() {
+                                    stats.bump("analysis.withdraw_checked");
+                                }
+                            }
+                        }
+                        if let Some(d) = bad {
+                            violation = Some(mk("c38.movement_outside_static_bounds", format!("program {:?}: {}", instrs, d)));
+                            break;
+                        }
+                        stats.bump("analysis.compared_with_execution");
+                    }
                     // on success with a full verdict: vault balances equal the interpreter's
-                    if success && verdict == Pred::Ok && self.id != "C36" {
+                    if success && verdict == Pred::Ok && matches!(self.id, "C09" | "C10") {
                         let after = cur(&node, &w);
                         let mut exp = it.vault_f.clone();
                         for ((to, r), a) in &it.dep_f {
